@@ -277,3 +277,16 @@ def g5_absence_by_truthiness(prog: Program, run: Run, rule: str,
             run.ok(rule, f"{f.module.rel}:{f.qual}",
                    f"{len(cands)} truthiness tests, none on an Optional value type", f.loc)
     return n
+
+
+def run_as(run: Run, src: str, dst: str, fn) -> None:
+    """Run a rule implemented for another property and re-label its instances."""
+    tmp = Run(run.prop, run.tier, "", [])
+    tmp.rule(src, "")
+    fn(tmp)
+    for i in tmp.instances:
+        if i["verdict"] == "holds":
+            run.ok(dst, i["construct"], i["obligation"], i["loc"])
+        else:
+            run.violation(dst, i["construct"], i["aspect"], i["obligation"], i["loc"],
+                          i.get("stmt", ""))
